@@ -364,6 +364,8 @@ def run(rep):
     initial_state_rule(rep, f)
     symmetry_rule(rep)
     diag.run(rep, f, "C14")
+    from ..engines import dispatch
+    dispatch.run(rep, f, "C14")
     rep.undecided += ["positions of iterators and range boundaries after a history (value-level)",
                       "results of the range content operations (extract/clone/delete/insert/surround)",
                       "getElementById after removal of the element (left as observed: the ID map is not pruned)"]
